@@ -4,7 +4,8 @@
    rt_b64 / rt_ser / mac_len are explicit premises where needed. *)
 From Coq Require Import List NArith ZArith Bool.
 Import ListNotations.
-Require Import Verif.Lib.Wire Verif.Gen.Facts_C10 Verif.Model.C10 Verif.Proofs.C10 Verif.Proofs.C10_sat.
+Require Import Verif.Lib.Wire Verif.Gen.Facts_C10 Verif.Model.C10 Verif.Proofs.C10 Verif.Proofs.C10_sat
+        Verif.Proofs.C10_on Verif.Proofs.C10_codec Verif.Proofs.C10_real.
 
 (* constants read from session.py: the three comparisons are `>`, the limit is 4064, the payload
    is (accessed, created, state), each wrapped dict method wraps the dict method of its own name *)
@@ -117,3 +118,35 @@ Theorem C10_chain_refines_spec_instance : forall o l,
   Forall2 ok_at (run_chain sat_O o None l) (spec_chain sat_O o None true l).
 Proof. exact chain_refines_spec_instance. Qed.
 Print Assumptions C10_chain_refines_spec_instance.
+
+(* ---- the real wire format: round trips of the Gallina json.dumps / urlsafe base64 that the runner
+   uses (and that the correspondence run compares character by character with the real libraries) *)
+Theorem C10_json_roundtrip : forall v, wf_jv v = true -> json_loads (json_dumps v) = Some v.
+Proof. exact json_loads_dumps. Qed.
+Print Assumptions C10_json_roundtrip.
+
+Theorem C10_b64_roundtrip : forall x, Forall (fun b => (b < 256)%N) x -> b64dec (b64enc x) = Some x.
+Proof. exact b64dec_b64enc. Qed.
+Print Assumptions C10_b64_roundtrip.
+
+(* the chain theorem with the codec premises restricted to a class W of states closed under the
+   operations of the chain *)
+Theorem C10_chain_refines_spec_on : forall O o (W : dict -> Prop),
+  mac_len O -> codec_ok O (key o) W -> W [] ->
+  forall l last sv, chain_closed W l -> inv_on O o W last sv ->
+  Forall2 ok_at (run_chain O o last l) (spec_chain O o sv true l).
+Proof. exact chain_refines_spec_on. Qed.
+Print Assumptions C10_chain_refines_spec_on.
+
+(* instance for JSON + base64 as really written: the only things left about the MAC are its fixed
+   length and that it yields bytes; operations carry well-formed data (Unicode scalar values) *)
+Theorem C10_chain_refines_spec_real : forall macf n o l,
+  (forall k m, length (macf k m) = n) -> (forall k m, Forall (fun b => (b < 256)%N) (macf k m)) -> wf_chain l ->
+  Forall2 ok_at (run_chain (real_O macf n) o None l) (spec_chain (real_O macf n) o None true l).
+Proof. exact chain_refines_spec_real. Qed.
+Print Assumptions C10_chain_refines_spec_real.
+
+Theorem C10_chain_refines_spec_real_closed : forall o l, wf_chain l ->
+  Forall2 ok_at (run_chain (real_O toy_mac 1) o None l) (spec_chain (real_O toy_mac 1) o None true l).
+Proof. exact chain_refines_spec_real_closed. Qed.
+Print Assumptions C10_chain_refines_spec_real_closed.
